@@ -1059,6 +1059,16 @@ def build_world_overrides(kind):
     return m.finish()
 
 
+def build_world_bare():
+    """entry points of all three stages and nothing else: no struct parameters, no overrides, no resources, no constants - every list empty"""
+    m = Model('bare')
+    v4 = m.vec(4)
+    m.entry('vs_main', 'Vertex', [('vertex_index', m.scalar('Uint', 4), m.builtin('VertexIndex'))], (v4, m.builtin('Position')))
+    m.entry('fs_main', 'Fragment', [], None)
+    m.entry('cs_main', 'Compute', [], None, workgroup=(8, 1, 1))
+    return m.finish()
+
+
 def build_world_leaf_zoo():
     """every leaf type of the type table as a member of one host-shareable struct (derive switches off: no layout constraints)"""
     m = Model('leaf_zoo')
